@@ -233,3 +233,73 @@ where
     runner::count("race.payload_reads_through_handles", reads);
     (loads, reads)
 }
+
+/// Minimal stale-read hunt for Miri: one writer performs a few writes and drops what it replaced,
+/// one reader performs a few loads and reads through what it got; nothing but the container orders
+/// the two threads, so any load whose ordering is too weak may return a stale pointer (the stale-prone
+/// schedule is "the writer finishes, then the reader starts", which Miri produces most of the time
+/// with a low preemption rate). Run without the step hook: every extra atomic access dilutes the
+/// chance of a stale read (measured: 28 % of seeds without the hooks feature, 6 % with the hook
+/// compiled in but not installed, 0.5 % with the FREE handler active, for seeded change C01b).
+/// `variant` selects strategy / read flavour / write flavour.
+pub fn minimal<V: Val, S: StratExt<V>>(variant: u64, loads: usize, stores: usize) -> u64
+where
+    Guard<V, S>: Send,
+{
+    let shared = Arc::new(ArcSwapAny::<V, S>::new(V::fresh(1)));
+    let read_flavour = variant % 3;
+    let write_flavour = (variant / 3) % 3;
+    let writer = {
+        let shared = Arc::clone(&shared);
+        std::thread::spawn(move || {
+            for i in 0..stores {
+                let v = V::fresh(100 + i as u64);
+                match write_flavour {
+                    0 => shared.store(v),
+                    1 => {
+                        let old = shared.swap(v);
+                        let _ = old.vid();
+                        drop(old);
+                    }
+                    _ => {
+                        let mut v = Some(v);
+                        let old = shared.rcu(|_cur: &V| v.take().unwrap_or_else(|| V::fresh(900 + i as u64)));
+                        drop(old);
+                    }
+                }
+            }
+        })
+    };
+    let reader = {
+        let shared = Arc::clone(&shared);
+        std::thread::spawn(move || {
+            let mut sum = 0u64;
+            let mut held = Vec::new();
+            if read_flavour == 2 {
+                // more guards than fast slots: the loads below take the slow path on the default strategy
+                for _ in 0..9 {
+                    held.push(shared.load());
+                }
+            }
+            for _ in 0..loads {
+                if read_flavour == 1 {
+                    let v = shared.load_full();
+                    sum += v.vid();
+                } else {
+                    let g = shared.load();
+                    sum += g.vid();
+                }
+            }
+            for g in held {
+                sum += g.vid();
+            }
+            sum
+        })
+    };
+    writer.join().unwrap();
+    let r = reader.join().unwrap();
+    if let Ok(c) = Arc::try_unwrap(shared) {
+        drop(c.into_inner());
+    }
+    r
+}
